@@ -47,7 +47,7 @@ THEOREMS = ["FP.Props.C11." + t for t in [
     "node_mode_is_edge_mode_on_expansion_kcover", "kcover_lengths_agree_on_node_constraints",
     "kcover_lengths_eq_of_all_edges", "node_branch_ignore_and_values", "kcover_node_mode_length_regression",
     "kcover_former_reading_differs", "kcover_former_lp_eq",
-    "dotted_names_condense_witness", "first_constraint_empty_witness",
+    "dotted_names_condense_witness", "empty_constraint_rejected_witness",
     # the four cyclic k-classes
     "node_mode_is_edge_mode_on_expansion_kcoverc", "node_mode_is_edge_mode_on_expansion_kfdc",
     "node_mode_is_edge_mode_on_expansion_kfdc_of_no_edge_attr", "kfdc_caps_equal_iff", "kfdc_node_branch_input",
@@ -273,7 +273,8 @@ def outcome(f):
         return ("ok", f())
     except ValueError as e:
         s = str(e)
-        return ("raises", "invalid" if s.startswith("Invalid node name") else "notin" if "not in the original graph" in s else "value:" + s[:60])
+        return ("raises", "invalid" if s.startswith("Invalid node name") else "notin" if "not in the original graph" in s
+                else "empty" if "must have at least 1 element" in s else "value:" + s[:60])
     except IndexError:
         return ("raises", "index")
     except Exception as e:
@@ -548,8 +549,8 @@ def k2_case(ctx, k2):
             for x in c:
                 if (kind == "nodes" and x not in cfg["nodes"]) or (kind == "edges" and list(x) not in cfg["edges"]):
                     raise ValueError("constraint element not in the original graph")
-        if cons and not cons[0]:
-            raise IndexError("first constraint empty")
+        if any(not c for c in cons):
+            raise ValueError("empty constraint")           # (since the repair of get_expanded_subpath_constraints)
         kw = k2_kwargs(k2, numtype)
         if has_len:
             kw["length_attr"] = LEN
@@ -691,8 +692,8 @@ def k2m_case(ctx, k2):
             for x in c:
                 if (kind == "nodes" and x not in cfg["nodes"]) or (kind == "edges" and list(x) not in cfg["edges"]):
                     raise ValueError("constraint element not in the original graph")
-        if cons and not cons[0]:
-            raise IndexError("first constraint empty")
+        if any(not c for c in cons):
+            raise ValueError("empty constraint")           # (since the repair of get_expanded_subpath_constraints)
         kw = k2m_kwargs(cls, k2, numtype, has_len)
         xs, xe = [v + ".0" for v in k2["starts"]], [v + ".1" for v in k2["ends"]]
         if cls == "kPathCover":
@@ -886,8 +887,8 @@ def k2c_build(fp, k2, node_mode, drop_edge_attr=False):
             for x in c:
                 if (kind == "nodes" and x not in cfg["nodes"]) or (kind == "edges" and list(x) not in cfg["edges"]):
                     raise ValueError("constraint element not in the original graph")
-        if cons and not cons[0]:
-            raise IndexError("first constraint empty")
+        if any(not c for c in cons):
+            raise ValueError("empty constraint")           # (since the repair of get_expanded_subpath_constraints)
         kw.update(G=X, subset_constraints=x_constraints(kind, cons), elements_to_ignore=ign + [x_node(v) for v in k2["ignore"]],
                   additional_starts=[v + ".0" for v in k2["starts"]], additional_ends=[v + ".1" for v in k2["ends"]])
         if cls == "kPathCoverCycles":
